@@ -96,7 +96,9 @@ class Sandbox:
         self.tree = tree
 
     def __enter__(self):
-        self.sb = os.path.realpath(tempfile.mkdtemp(prefix="c22sb-"))
+        # a memory-backed directory when there is one: thousands of small trees are created and removed
+        shm = "/dev/shm" if os.path.isdir("/dev/shm") and os.access("/dev/shm", os.W_OK) else None
+        self.sb = os.path.realpath(tempfile.mkdtemp(prefix="c22sb-", dir=os.environ.get("C22_SANDBOX_DIR", shm)))
         build_tree(self.sb, self.tree, self.sb)
         return self
 
@@ -348,11 +350,12 @@ def _cid(text: str):
     return "unexpected:" + text[:40]
 
 
-def _load(env, name, mode, via):
+def _load(env, name, mode, via, loop=None):
     """-> {"ok": [path | None, content-id]} | {"err": class}"""
     from liquid.exceptions import TemplateNotFoundError
 
-    from ..impl.render import run_async
+    def run_async(coro_fn):  # one event loop (and one executor) per case
+        return loop.run_until_complete(coro_fn())
 
     try:
         if via == "include":
@@ -436,6 +439,8 @@ class LoaderStream(Stream):
         raise NotImplementedError
 
     def cases(self, ctx):
+        # a few hundred cases run faster in-process than through a 16-worker pool on a busy machine
+        self.parallel = ctx.tier == "thorough"
         rng = ctx.rng_for(self.name)
         return [self.gen_case(rng, i) for i in range(ctx.scale(*self.sizes))]
 
@@ -471,8 +476,16 @@ class LoaderStream(Stream):
                 except ValueError:
                     # documented: "Raise: ValueError if `ext` is not a valid suffix" — a configuration error
                     return {"sb": sb, "pkg": pkg, "ctor": "ValueError", "results": [], "allowed": [], "checks": []}
-                results = [_load(env, n, case["mode"], case["via"]) for n in names]
-                again = [_load(env, n, case["mode"], case["via"]) for n in names] if case.get("caching") else None
+                import asyncio
+
+                loop = asyncio.new_event_loop() if case["mode"] == "async" else None
+                try:
+                    results = [_load(env, n, case["mode"], case["via"], loop) for n in names]
+                    again = [_load(env, n, case["mode"], case["via"], loop) for n in names] if case.get("caching") else None
+                finally:
+                    if loop is not None:
+                        loop.run_until_complete(loop.shutdown_default_executor())
+                        loop.close()
                 bases = [b if b.startswith("/") else os.path.join(sb, b) for b in self.bases(case, sb, pkg)]
                 allowed = allowed_ids(bases, bool(case.get("rej")))
                 checks = []
@@ -838,6 +851,7 @@ class FsPrimStream(Stream):
     parallel = True
 
     def cases(self, ctx):
+        self.parallel = ctx.tier == "thorough"
         rng = ctx.rng_for("fsprim")
         out = []
         for _ in range(ctx.scale(100, 1000)):
